@@ -6,7 +6,9 @@ import PV.Driver.Util
 A file is assembled from pieces, then parsed:
 
 * `raw HEX`                      append arbitrary bytes (the file is then no grammar document)
-* `bom KIND HEX`                 byte-order mark (must be the first piece)
+* `bom KIND HEX`                 byte-order mark: as the first piece the file's mark (`Style.bom`), later the mark
+                                 at the start of the next line piece (`Line.mark` / `Header.mark`); the HEX of that
+                                 line is the line without the mark
 * `blk WS EOL HEX`               blank line
 * `cmt LEAD MARKER TEXT EOL HEX` comment line
 * `hdr LEAD PRE NAME POST TRAIL EOL HEX`                          section header
@@ -36,6 +38,7 @@ structure St where
   pieces : List Bytes := []        -- reversed
   grammar : Bool := true
   bom : Bom := .none
+  pend : Bom := .none              -- mark given for the next line
   pre : List Line := []            -- reversed
   secs : List Sec := []            -- reversed, bodies reversed
 
@@ -124,12 +127,12 @@ def canonSpec (m : List (Bytes × List (Bytes × Bytes))) : List String :=
   (l.toArray.qsort (· < ·)).toList
 
 def St.wf (s : St) : Bool :=
-  s.grammar && IniSpec.WF ⟨s.bom⟩ s.doc && IniSpec.render ⟨s.bom⟩ s.doc == s.bytes
+  s.grammar && s.pend == .none && IniSpec.WF ⟨s.bom⟩ s.doc && IniSpec.render ⟨s.bom⟩ s.doc == s.bytes
 
 def addLine (s : St) (l : Line) (hex : Bytes) : St :=
   match s.secs with
-  | [] => { s with pre := l :: s.pre, pieces := hex :: s.pieces }
-  | x :: xs => { s with secs := { x with body := l :: x.body } :: xs, pieces := hex :: s.pieces }
+  | [] => { s with pre := l :: s.pre, pieces := hex :: s.pieces, pend := .none }
+  | x :: xs => { s with secs := { x with body := l :: x.body } :: xs, pieces := hex :: s.pieces, pend := .none }
 
 /-! ### getters with chosen arguments, life cycle, `pstring.c` entry points -/
 
@@ -341,25 +344,28 @@ def step (s : St) (toks : List String) : IO (St × Bool) := do
   | ["bom", k, h] =>
     match bomOf k, hx h with
     | some b, some hb =>
-      if s.pieces.isEmpty && hb == b.bytes then dot { s with bom := b, pieces := [hb] } else bad
+      if s.pieces.isEmpty && hb == b.bytes then dot { s with bom := b, pieces := [hb] }
+      else if s.pend == .none && hb == b.bytes then dot { s with pend := b, pieces := hb :: s.pieces }
+      else if hb == b.bytes then dot { s with grammar := false, pieces := hb :: s.pieces }   -- two marks in a row: bytes only
+      else bad
     | _, _ => bad
   | ["blk", ws, e, h] =>
     match hx ws, eolOf e, hx h with
     | some ws, some e, some hb =>
-      let l : Line := ⟨.blank ws, e⟩
-      if l.render == hb then dot (addLine s l hb) else bad
+      let l : Line := ⟨.blank ws, e, s.pend⟩
+      if l.core == hb then dot (addLine s l hb) else bad
     | _, _, _ => bad
   | ["cmt", lead, m, text, e, h] =>
     match hx lead, m.toNat?, hx text, eolOf e, hx h with
     | some lead, some m, some text, some e, some hb =>
-      let l : Line := ⟨.comment lead ⟨UInt8.ofNat m, text⟩, e⟩
-      if l.render == hb then dot (addLine s l hb) else bad
+      let l : Line := ⟨.comment lead ⟨UInt8.ofNat m, text⟩, e, s.pend⟩
+      if l.core == hb then dot (addLine s l hb) else bad
     | _, _, _, _, _ => bad
   | ["hdr", lead, pre, name, post, trail, e, h] =>
     match hx lead, hx pre, hx name, hx post, hx trail, eolOf e, hx h with
     | some lead, some pre, some name, some post, some trail, some e, some hb =>
-      let hd : Header := ⟨lead, pre, name, post, trail, e⟩
-      if hd.render == hb then dot { s with secs := ⟨hd, []⟩ :: s.secs, pieces := hb :: s.pieces } else bad
+      let hd : Header := ⟨lead, pre, name, post, trail, e, s.pend⟩
+      if hd.core == hb then dot { s with secs := ⟨hd, []⟩ :: s.secs, pieces := hb :: s.pieces, pend := .none } else bad
     | _, _, _, _, _, _, _ => bad
   | ["ent", lead, key, pre, post, q, value, trail, cm, ct, e, h] =>
     match hx lead, hx key, hx pre, hx post, quoteOf q, hx value, hx trail with
@@ -367,8 +373,8 @@ def step (s : St) (toks : List String) : IO (St × Bool) := do
       match cm.toNat?, hx ct, eolOf e, hx h with
       | some cm, some ct, some e, some hb =>
         let c : Option Comment := if cm == 0 then none else some ⟨UInt8.ofNat cm, ct⟩
-        let l : Line := ⟨.entry ⟨lead, key, pre, post, q, value, trail, c⟩, e⟩
-        if l.render == hb then dot (addLine s l hb) else bad
+        let l : Line := ⟨.entry ⟨lead, key, pre, post, q, value, trail, c⟩, e, s.pend⟩
+        if l.core == hb then dot (addLine s l hb) else bad
       | _, _, _, _ => bad
     | _, _, _, _, _, _, _ => bad
   | ["wfcheck"] => IO.println (if s.wf then "wf" else "notwf"); return (s, false)
